@@ -213,6 +213,8 @@ class Engine(ExprMixin, StmtMixin, CallMixin, SpecMixin):
         """vacuity guard (DESIGN 2.8): the *full* path condition (with the quantified hypotheses) must be satisfiable
         wherever obligations are about to be generated; an unsatisfiable one would discharge everything. 'unknown'
         is accepted (the guard is a refuter, not a prover)."""
+        if self._cover_sites.get(site):
+            return  # some path reaching this site is already known to be satisfiable
         key = tuple(c.get_id() for c in self.pc)
         if key in self._cover_seen:
             return
